@@ -10,9 +10,9 @@ git -C /repo worktree remove --force $WT 2>/dev/null
 git -C /repo worktree add -q --detach $WT HEAD || exit 2
 cd $WT
 DEMODIR=$(python3 -c "import json;print(json.load(open('$SRC/meta.json')).get('demo_dir','interpreter'))")
-DEMODIR=${DEMODIR#./}; DEMODIR=${DEMODIR%/}
+DEMODIR=${DEMODIR%% *}; DEMODIR=${DEMODIR#./}; DEMODIR=${DEMODIR%/}; DEMODIR=${DEMODIR%,}
 DEMOCMD=$(python3 -c "import json;print(json.load(open('$SRC/meta.json')).get('demo_cmd',''))")
-RACE=""; case "$DEMOCMD" in *-race*) RACE="-race";; esac
+RACE=""; if echo "$DEMOCMD" | grep -Eq 'go test[^|;(]*[[:space:]]-race'; then RACE="-race"; fi
 run_demo() { cp $SRC/demo_test.go $WT/$DEMODIR/zz_seed_demo_test.go; (cd $WT && timeout 600 go test $RACE -vet=off -count=1 -run 'TestSeedDemo$' ./$DEMODIR > /tmp/seed_demo_$NAME.log 2>&1); rc=$?; rm -f $WT/$DEMODIR/zz_seed_demo_test.go; return $rc; }
 run_demo; without=$?
 git apply --whitespace=nowarn $SRC/patch.diff || { echo "SEED $NAME: patch does not apply"; git -C /repo worktree remove --force $WT; exit 1; }
